@@ -438,7 +438,7 @@ def translate_file(repo, stem, ctx, report):
                     if f['name'] == 'minimum_packet_size':
                         b = parse_body(f['body'])
                         tconsts['minimum_packet_size'] = const_eval(b[2], consts)
-                tinfo = dict(ns=f'{stem}.{tname}', name=tname, consts=tconsts,
+                tinfo = dict(ns=f'{stem}.{tname}', name=tname, consts=tconsts, modpath=list(it['path']),
                              min=tconsts.get('minimum_packet_size'))
                 # signatures
                 sigs = {}
@@ -616,12 +616,14 @@ def main():
             for d in t['defs']:
                 out.append(d['text'])
             out.append(f'end {t["name"]}')
-            report['types'].append(dict(ns=t['ns'], min=t['min'],
+            report['types'].append(dict(ns=t['ns'], min=t['min'], modpath=t['modpath'],
                                         fns=[dict(name=d['name'], callees=d['callees'], param=d['param'],
                                                   ret=d['ret']) for d in t['defs']],
                                         other_fns=t['other_fns'], consts=t['consts']))
         out.append(f'end {stem}')
         out.append('')
+    libsrc = open(os.path.join(repo, PKT_SRC, 'lib.rs')).read()
+    report['forbid_unsafe'] = bool(re.search(r'#!\[forbid\(unsafe_code\)\]', libsrc))
     out.append('end TV.Pkt')
     text = '\n'.join(out) + '\n'
     os.makedirs(outdir, exist_ok=True)
